@@ -179,6 +179,14 @@ def reset(B, init):
         for c in caps:
             u.addCapability(c)
         d.setUser(u)
+    # overlapping hostmasks put in place without setUser (what an older database may contain): from then on
+    # users.setUser refuses these accounts (DuplicateHostmask), which exercises the roll-back paths of the commands
+    for name, masks in init.get('extra', {}).items():
+        u = d.getUser(name)
+        for m in masks:
+            u.hostmasks.add(m)
+    d._nameCache.clear()
+    d._hostmaskCache.clear()
     d.flush()
 
 
@@ -189,7 +197,7 @@ def enc_pw(pw):
 def init_wire(init):
     users = []
     for i, (name, pw, mask, caps) in enumerate(init['accounts'], 1):
-        users.append([[[i], name, False, False, True, enc_pw(pw), sorted(caps), [mask], [], []], []])
+        users.append([[[i], name, False, False, True, enc_pw(pw), sorted(caps), [mask] + init.get('extra', {}).get(name, []), [], []], []])
     return [users, len(init['accounts']), [], [], []]
 
 
@@ -411,7 +419,12 @@ def gen_init(rng):
            ['plain', 'ppw', ACTORS['plain'], (['#c,op'] if rng.random() < 0.3 else (['#d,op'] if rng.random() < 0.3 else []))]]
     if rng.random() < 0.15:
         acc[2][3] = acc[2][3] + ['-user.register']
-    return {'accounts': acc}
+    init = {'accounts': acc}
+    if rng.random() < 0.2:
+        init['extra'] = rng.choice([{'plain': ['q!q@over.lap'], 'boss': ['*!*@over.lap']},
+                                    {'adm': ['*!*@over.lap'], 'plain': ['Q!q@OVER.lap']},
+                                    {'plain': ['q!q@over.lap'], 'adm': ['q!*@*.lap']}])
+    return init
 
 
 def gen_step(rng, hostile):
@@ -500,8 +513,15 @@ INIT0 = {'accounts': [['boss', 'bpw', OWNER_MASK, ['owner']], ['adm', 'apw', ACT
 W_F1 = {'init': INIT0, 'steps': [cmdstep('anon', 'user register', ['x\n  capability owner', 'pw']), {'op': 'reload'}]}
 W_F43 = {'init': INIT0, 'steps': [cmdstep('adm', 'admin capability add', ['plain', ' owner']), {'op': 'reload'}]}
 W_XCHAN = {'init': INIT0, 'steps': [cmdstep('adm', 'channel capability add', ['#c', 'plain', '#d,op'])]}
+INIT_OVER = dict(INIT0, extra={'plain': ['q!q@over.lap'], 'boss': ['*!*@over.lap']})
 CORPUS = [
     W_F1, W_F43, W_XCHAN,
+    {'init': INIT_OVER, 'steps': [cmdstep('plain', 'user changename', ['plain', 'neo']), cmdstep('anon', 'user identify', ['plain', 'ppw']),
+                                  cmdstep('plain', 'user hostmask remove', ['plain', 'q!q@over.lap']), cmdstep('plain', 'user hostmask add', ['plain', 'a!b@c']),
+                                  cmdstep('plain', 'user hostmask add', ['plain', 'plain!p@host.plain']), cmdstep('plain', 'user unidentify', []),
+                                  cmdstep('plain', 'user set password', ['plain', 'ppw', 'pw']), cmdstep('plain', 'user set secure', ['pw', 'on']),
+                                  cmdstep('adm', 'admin capability add', ['plain', 'foo']), cmdstep('plain', 'user hostmask remove', ['plain', 'all']),
+                                  cmdstep('odd', 'user register', ['oddone', 'pw']), cmdstep('anon', 'user register', ['fine', 'pw']), {'op': 'reload'}]},
     {'init': INIT0, 'steps': [cmdstep('adm', 'channel capability add', ['#c', 'adm', '#D,OP']), cmdstep('adm', 'channel capability add', ['#c', 'plain', '-#d,op']),
                               cmdstep('adm', 'channel capability add', ['#c', 'plain', '#c,#d,op']), cmdstep('adm', 'channel capability remove', ['#c', 'plain', '#d,op']),
                               cmdstep('adm', 'channel capability set', ['#c', '#d,op', '#d,x']), cmdstep('adm', 'channel capability unset', ['#c', '#d,op']),
